@@ -425,3 +425,20 @@ pub unsafe fn ledger_live_count() -> usize {
     }
     t
 }
+
+// ---------------------------------------------------------------------------
+// Monitor: stores through Cell::set whose target lies inside the shared static
+// sentinel EMPTY_CHUNK (DESIGN §3.3).  Observes same-value stores too.
+// ---------------------------------------------------------------------------
+pub static mut SENTINEL_STORES: usize = 0;
+
+pub fn cell_set_monitor<T>(c: &Cell<T>, v: T) {
+    unsafe {
+        let a = c as *const Cell<T> as usize;
+        let e = EMPTY_CHUNK.get().as_ptr() as usize;
+        if a >= e && a < e + FOOTER_SIZE {
+            SENTINEL_STORES += 1;
+        }
+    }
+    drop(c.replace(v));
+}
